@@ -23,6 +23,21 @@ func (a *Analyzer) Returns(id string, roots map[string]*Term, assume ...*Atom) (
 	return out, w.Undecided
 }
 
+// ReturnsSplit: like Returns, with automatic case splits (return sites of helpers explored one by one).
+func (a *Analyzer) ReturnsSplit(id string, roots map[string]*Term, assume ...*Atom) ([]*Effect, []string) {
+	fn := a.P.Func(id)
+	var out []*Effect
+	w := a.NewWalker(func(e *Effect) {
+		if e.Kind == "return" && e.Instr.Parent() == fn {
+			out = append(out, e)
+		}
+	})
+	w.Assume = assume
+	w.AutoSplit = true
+	w.Run(fn, roots, nil)
+	return out, w.Undecided
+}
+
 func basicOf(t types.Type) *types.Basic {
 	b, _ := t.Underlying().(*types.Basic)
 	return b
@@ -115,6 +130,14 @@ func runC06(a *Analyzer, r *Results) {
 			facts := Facts{}
 			for _, f := range ev.facts {
 				facts.Add(f.Subst(subst))
+			}
+			// the total is an unsigned sum: `S > 0` / `S >= 1` say "not zero", their negations say "zero"
+			zero := Const("0")
+			if facts.Has(Lt(zero, S)) != nil || facts.Has(Le(Const("1"), S)) != nil {
+				facts.Add(Ne(S, zero))
+			}
+			if facts.Has(Le(S, zero)) != nil || facts.Has(NotA(Lt(zero, S))) != nil || facts.Has(Lt(S, Const("1"))) != nil {
+				facts.Add(Eq(S, zero))
 			}
 			ok := false
 			why := "returns " + PP(val)
